@@ -1124,6 +1124,7 @@ _zuc256_eia3_4_buffer_job(const void *const pKey[NUM_SSE_BUFS], const uint8_t *i
         clear_mem(&singlePktState, sizeof(singlePktState));
         clear_mem(&state, sizeof(state));
         clear_mem(&keys, sizeof(keys));
+        clear_mem(T, sizeof(T));
 #endif
 }
 
